@@ -651,7 +651,8 @@ static int t_mpz_tdiv_qr (const char *f, int budget)
     }
   printf ("PASS %d\n", budget / 4); return 0;
 }
-static int t_mpz_ui (const char *f, int budget)           /* add_ui sub_ui ui_sub com */
+static int ref_mul (L *w, const L *u, int un, const L *v, int vn);
+static int t_mpz_ui (const char *f, int budget)           /* add_ui sub_ui ui_sub com mul_ui mul_si */
 {
   for (int it = 0; it < budget; it++)
     {
@@ -664,6 +665,8 @@ static int t_mpz_ui (const char *f, int budget)           /* add_ui sub_ui ui_su
       if (!strcmp (f, "mpz_add_ui")) { r_addsub (&want, &ru, &rv, 0); mpz_add_ui (w, pu, v); }
       else if (!strcmp (f, "mpz_sub_ui")) { r_addsub (&want, &ru, &rv, 1); mpz_sub_ui (w, pu, v); }
       else if (!strcmp (f, "mpz_ui_sub")) { r_addsub (&want, &rv, &ru, 1); mpz_ui_sub (w, v, pu); }
+      else if (!strcmp (f, "mpz_mul_ui")) { want.n = ref_mul (want.d, ru.d, ru.n, rv.d, rv.n); want.neg = want.n ? ru.neg : 0; mpz_mul_ui (w, pu, v); }
+      else if (!strcmp (f, "mpz_mul_si")) { long sv = (long) v; rv.d[0] = sv < 0 ? -(L) sv : (L) sv; want.n = ref_mul (want.d, ru.d, ru.n, rv.d, rv.n); want.neg = want.n ? (ru.neg != (sv < 0)) : 0; mpz_mul_si (w, pu, sv); }
       else { R one; one.neg = 0; one.n = 1; one.d[0] = 1; R t; r_addsub (&t, &ru, &one, 0); want = t; want.neg = t.n ? !t.neg : 0; mpz_com (w, pu); }      /* ~x = -(x+1) */
       int ok = r_eq_mpz (&want, w);
       if (ok && !al) ok = r_eq_mpz (&ru, u);
@@ -847,7 +850,7 @@ int main (int argc, char **argv)
   if (!strcmp (f, "mpz_add") || !strcmp (f, "mpz_sub")) return t_mpz_aors (f, budget);
   if (!strcmp (f, "mpz_mul")) return t_mpz_mul (f, budget);
   if (!strcmp (f, "mpz_tdiv_qr") || !strcmp (f, "mpz_tdiv_q") || !strcmp (f, "mpz_tdiv_r")) return t_mpz_tdiv_qr (f, budget);
-  if (!strcmp (f, "mpz_add_ui") || !strcmp (f, "mpz_sub_ui") || !strcmp (f, "mpz_ui_sub") || !strcmp (f, "mpz_com")) return t_mpz_ui (f, budget);
+  if (!strcmp (f, "mpz_add_ui") || !strcmp (f, "mpz_sub_ui") || !strcmp (f, "mpz_ui_sub") || !strcmp (f, "mpz_com") || !strcmp (f, "mpz_mul_ui") || !strcmp (f, "mpz_mul_si")) return t_mpz_ui (f, budget);
   if (!strcmp (f, "mpz_neg") || !strcmp (f, "mpz_abs") || !strcmp (f, "mpz_set") || !strcmp (f, "mpz_swap")) return t_mpz_copy (f, budget);
   if (!strcmp (f, "mpz_cmp") || !strcmp (f, "mpz_cmpabs")) return t_mpz_cmp (f, budget);
   if (!strcmp (f, "mpz_tstbit") || !strcmp (f, "mpz_scan0") || !strcmp (f, "mpz_scan1")) return t_mpz_bits (f, budget);
